@@ -136,7 +136,7 @@ SLOT = {
     "L": ["foo", "bar", "HTML", "MAX_PATH_LEN", "a=b=c", "Foo.*", "C_LANG", " ", "\t", "", "x y", "x\ty", "X  Y", "ß", "ẞ", "<b>", "a*b*", "1", "a", "HT", "café", "x\ny", " pad ", "a.b-c"],
     "T": ["alpha", "beta gamma", "one two three", "<b>x</b>", "a <!-- c > d --> e", "`c`", "*e*", "**s**", "café", "日本 語", "a\x0cb", "a b", "[^1]", "[x]", "a < b", "say \"q\"", "a  b",
           "tail  ", "back\\slash", "&amp_x;", "a &copy_b; c", "&amp;", "&lt;tag&gt;", "x_y_z", "http://a.b/c", "a@b.cd", "\\&amp;lt;", "\\&copy;", "it's", "100%", "a|b", "$m$", "", " ", "[link](/u)",
-          "![i](/p.png)", "<span a=\"1\">", "~~d~~", "==m==", "^s^", "a*", "_u", "end.", "HTML", "[foo]", "[bar][foo]", ">!s!<", "[r(t)]"],
+          "![i](/p.png)", "<span a=\"1\">", "[foo]: /u", "[^1]: n", "*[HTML]: t", "~~d~~", "==m==", "^s^", "a*", "_u", "end.", "HTML", "[foo]", "[bar][foo]", ">!s!<", "[r(t)]"],
     "U": ["/u", "http://example.com/café", "http://e.com/a[1]", "http://e.com/a b", "javascript:x", "x.png", "a&b=\"c\"", "/u%20v", "", "<u>", "./README.md", "/a(b)c", "HTTP://E.F/g", "data:image/png;base64,A",
           "#frag", "//host/p", "mailto:a@b.c", "/ü"],
     "C": ["a", "bb", "x \\| y", "`a|b`", "", " ", "a\x0cb", "*e*", "1", "a\\", "<b>", "&amp;", "c c"],
@@ -159,7 +159,7 @@ SLOT_TEMPLATES = [
     "# {T} [{L}]\n\n## {T} <!-- {T} > {T} --> {T}\n\n{T}\n", "# {T}[^{L}]\n\n{T}[^{W}]\n\n[^{L}]: {T}\n\n[^{W}]: {T}\n", "{T}[^{W}]\n\n# {T}[^{L}]\n\n{T}\n\n[^{L}]: {T}\n\n[^{W}]: {T}\n",
     ".. toc::\n\n# {T}\n\n## {T}\n\n# {T}\n", "```{{toc}}\n```\n\n# {T}\n\n### {T}\n", ".. toc:: {T}\n   :min-level: {N}\n   :max-level: {N}\n\n# {T}\n\n## {T}\n",
     ".. note:: {T}\n   :class: {T}\n\n   {T}\n", "```{{note}} {T}\n:class: {T}\n\n{T}\n```\n", ".. image:: {U}\n   :alt: {T}\n   :width: {T}\n   :height: {T}\n   :align: {T}\n   :target: {U}\n",
-    ".. figure:: {U}\n   :figwidth: {T}\n   :figclass: {T}\n\n   {T}\n\n   {T}\n", ".. include:: {U}\n", ".. {W}:: {T}\n\n   {T}\n", "```{{{W}}} {T}\n{T}\n```\n",
+    ".. figure:: {U}\n   :figwidth: {T}\n   :figclass: {T}\n\n   {T}\n\n   {T}\n", ".. figure:: {U}\n\n   {T}\n", "```{{figure}} {U}\n\n{T}\n```\n", ".. note::\n\n   {T}\n", "```{{note}}\n{T}\n```\n", ".. image:: {U}\n\n   {T}\n", ".. include:: {U}\n", ".. {W}:: {T}\n\n   {T}\n", "```{{{W}}} {T}\n{T}\n```\n",
     "<{U}>\n", "[{T}]({U} \"{T}\")\n", "![{T}]({U})\n", "[{T}](<{U}> '{T}')\n", "{T} <http://example.com/{L}> {T}\n", "[http://e.com/{L}](<http://e.com/{L}>)\n",
     "{T}\n{S}{T}\n{S}{T}\n", "{T} `a\n{S}b` {T}\n", "{T} <a\n{S}href='x'> {T}\n", "> {T}\n{S}{T}\n", "- {T}\n{S}{T}\n",
     "{N}. {T}\n{N}. {T}\n", "{N}) {T}\n\n{N}) {T}\n", "- {T}\n\n  {N}. {T}\n",
